@@ -11,6 +11,7 @@ from ropt.results import GradientResults
 
 from ..core import PropertyCheck, nums
 from ..graddrive import DesignPlugin, manager
+from ..transforms_util import make_transforms
 
 INF_Q = 1000000
 TYPES = ["none", "truncate", "mirror"]
@@ -33,15 +34,23 @@ def drive(sc):
     smax = sc.get("smax", 9)
     base = list(range(-smax, smax + 1))
     samples = [[s, -s if i % 2 else s + (1 if s < smax else 0), s] for i, s in enumerate(base)]
+    # two realizations, two samplers: sampler 0 (variables 1 and 3) shares its perturbations between the realizations,
+    # sampler 1 (variable 2) draws them per realization - the second realization sees variable 2 with the opposite sign
+    samples2 = [[a, -b, c] for a, b, c in samples]
+    designs = [samples, samples2]
     P = len(samples)
+
+    def gradient_section():
+        return {"number_of_perturbations": P, "samplers": [0, 1, 0],
+                "perturbation_magnitudes": [v["mag"] / 4.0 if v["ptype"] == "abs" else v["fnum"] / v["fden"] for v in vs],
+                "perturbation_types": [int(PerturbationType.ABSOLUTE if v["ptype"] == "abs" else PerturbationType.RELATIVE) for v in vs],
+                "boundary_types": [int(BT[v["type"]]) for v in vs]}
     cfg = {
         "variables": {"initial_values": [q2f(v["x"]) for v in vs], "lower_bounds": [q2f(v["lb"]) for v in vs],
                       "upper_bounds": [q2f(v["ub"]) for v in vs]},
-        "gradient": {"number_of_perturbations": P,
-                     "perturbation_magnitudes": [v["mag"] / 4.0 if v["ptype"] == "abs" else v["fnum"] / v["fden"] for v in vs],
-                     "perturbation_types": [int(PerturbationType.ABSOLUTE if v["ptype"] == "abs" else PerturbationType.RELATIVE) for v in vs],
-                     "boundary_types": [int(BT[v["type"]]) for v in vs]},
-        "samplers": [{"method": "rvdesign/design", "shared": True}],
+        "realizations": {"weights": [1.0, 1.0]},
+        "gradient": gradient_section(),
+        "samplers": [{"method": "rvdesign/design", "shared": True}, {"method": "rvdesign/design", "shared": False}],
     }
     from ropt.config.enopt import GradientConfig
     # the user's GradientConfig OBJECT is first used for another configuration (other bounds), then for this one
@@ -49,31 +58,41 @@ def drive(sc):
     decoy = {"variables": {"initial_values": [0.0] * 3, "lower_bounds": [-7.0] * 3, "upper_bounds": [9.0] * 3}, "gradient": gobj,
              "samplers": cfg["samplers"]}
     EnOptConfig.model_validate(decoy)
-    cfg["gradient"] = gobj
-    config = EnOptConfig.model_validate(cfg)
-    DesignPlugin.design = [samples]
+    config = EnOptConfig.model_validate(dict(cfg, gradient=gobj))
+    DesignPlugin.design = designs
     rows = []
 
     def evaluator(variables, context):
         if context.perturbations is not None:
-            for x, p in zip(variables, context.perturbations):
+            for x, r, p in zip(variables, context.realizations, context.perturbations):
                 if p >= 0:
-                    rows.append((int(p), x.copy()))
+                    rows.append((int(r), int(p), x.copy()))
         return EvaluatorResult(objectives=variables.sum(axis=1, keepdims=True))
 
+    def events(gr, transformed):
+        rows.sort(key=lambda t: (t[0], t[1]))
+        return [{"ev": "Perturb", "vars": vs, "samples": designs[r], "transformed": transformed, "realization": r + 1,
+                 "pert": nums(gr.evaluations.perturbed_variables[r], exact=True),
+                 "rows": nums([x for rr, _, x in rows if rr == r], exact=True)} for r in range(2)]
+
+    x_user = np.array([q2f(v["x"]) for v in vs])
     ee = EnsembleEvaluator(config, None, evaluator, manager())
     # the judged evaluation is the second gradient evaluation of this evaluator (the first one at another point)
-    ee.calculate(np.array([q2f(v["x"]) for v in vs]) * 0.5, compute_functions=True, compute_gradients=True)
+    ee.calculate(x_user * 0.5, compute_functions=True, compute_gradients=True)
     rows.clear()
-    res = ee.calculate(np.array([q2f(v["x"]) for v in vs]), compute_functions=True, compute_gradients=True)
-    gr = next(r for r in res if isinstance(r, GradientResults))
-    rows.sort(key=lambda t: t[0])
-    ev = {"ev": "Perturb", "vars": vs, "samples": samples,
-          "pert": nums(gr.evaluations.perturbed_variables[0], exact=True),
-          "rows": nums([r for _, r in rows], exact=True)}
+    res = ee.calculate(x_user, compute_functions=True, compute_gradients=True)
+    trace = events(next(r for r in res if isinstance(r, GradientResults)), False)
+    # the same with a variable transform (dyadic scales, offsets in units of 1/4): what the evaluator receives and what is
+    # reported in the user domain must still be x + magnitude x sample, post-processed at the USER's bounds
+    transforms = make_transforms(var_scales=[2.0, 0.5, 4.0], var_offsets=[0.25, -0.5, 1.0])
+    config2 = EnOptConfig.model_validate(dict(cfg, gradient=gradient_section()), context=transforms)
+    rows.clear()
+    ee2 = EnsembleEvaluator(config2, transforms, evaluator, manager())
+    res2 = ee2.calculate(transforms.variables.to_optimizer(x_user), compute_functions=True, compute_gradients=True)
+    trace += events(next(r for r in res2 if isinstance(r, GradientResults)).transform_from_optimizer(transforms), True)
     m = (sc["mag"] if sc["ptype"] == "abs" else sc["fnum"] * (sc["ub"] - sc["lb"]) // sc["fden"])
     leaves = any(not (sc["lb"] <= sc["x"] + m * s <= sc["ub"]) for s in base)
-    return [ev], {"nontrivial": bool(leaves), "key": str(sc), "type": sc["type"]}
+    return trace, {"nontrivial": bool(leaves), "key": str(sc), "type": sc["type"]}
 
 
 def model_runs(tier):
@@ -83,8 +102,9 @@ def model_runs(tier):
 CHECK = PropertyCheck(
     prop="C10", trace_module="Trace_C10", drive=drive, model_runs=model_runs,
     rule=("TLC enumerates value x lower/upper bound (finite grid and +-inf) x boundary type x perturbation type x magnitude; each scenario is "
-          "one gradient evaluation whose injected integer samples run over -SMax..SMax (overshoots of several bound widths), with two "
-          "companion variables of other boundary types. Non-trivial: the raw perturbed value leaves the bounds for some sample."),
+          "the second gradient evaluation of an evaluator over two realizations and two injected-design samplers (one shared, one per "
+          "realization) whose integer samples run over -SMax..SMax (overshoots of several bound widths), with two companion variables of "
+          "other boundary types, judged per realization, without and with a dyadic variable transform. Non-trivial: the raw perturbed value leaves the bounds for some sample."),
     assumptions=["dyadic magnitudes and integer samples make float arithmetic exact: values are compared exactly in units of 1/4",
                  "after a multi-width overshoot MIRROR_BOTH may return any in-bounds value"],
 )
